@@ -238,6 +238,27 @@ class DiskCache:
         self._cache.set(key + self._HMAC_SUFFIX, value_hmac)
 
 
+def _dumps_without_sharing(obj: Any) -> bytes:
+    """Pickle ``obj`` so that equal values give equal bytes.
+
+    A plain ``pickle.dumps`` writes a back-reference when the same object occurs
+    twice, so two equal argument sets serialize differently depending on whether
+    their parts happen to be the same object (a value computed in this run versus
+    an equal one restored from the cache). Fast mode disables the memo; cyclic
+    structures cannot be written that way and fall back to the plain form.
+    """
+    import io
+
+    buffer = io.BytesIO()
+    pickler = pickle.Pickler(buffer)
+    pickler.fast = True
+    try:
+        pickler.dump(obj)
+    except (ValueError, RecursionError):
+        return pickle.dumps(obj)
+    return buffer.getvalue()
+
+
 def compute_cache_key(definition_hash: str, inputs: dict[str, Any]) -> str:
     """Compute a cache key from node identity and input values.
 
@@ -250,7 +271,7 @@ def compute_cache_key(definition_hash: str, inputs: dict[str, Any]) -> str:
     """
     try:
         sorted_items = sorted(inputs.items())
-        inputs_bytes = pickle.dumps(sorted_items)
+        inputs_bytes = _dumps_without_sharing(sorted_items)
     except (pickle.PicklingError, TypeError, AttributeError) as exc:
         logger.warning("Cache miss: inputs not picklable (%s)", exc)
         return ""
